@@ -113,7 +113,21 @@ func runC29(c *Ctx) {
 				continue
 			}
 			nAlloc++
-			c.MP(fn, "allocation sized by an input length is bounded first", []ssa.Instruction{in}, 1, GCmp(globEscape(c.D(mk.Len)), "<=", "*"))
+			// bounded: the size itself, or the input length it is computed from (a size that is
+			// min(missing, chunk) of a bounded length is bounded)
+			gates := []Gate{GCmp(globEscape(c.D(mk.Len)), "<=", "*")}
+			for x := range c.BackSlice(mk.Len) {
+				if ex, ok := x.(*ssa.Extract); ok {
+					if call, ok := ex.Tuple.(*ssa.Call); ok {
+						switch CalleeFullName(&call.Call) {
+						case "util.ReadLength", "util.ReadLengthBytes":
+							d := globEscape(c.D(ex))
+							gates = append(gates, GCmp(d, "<=", "*"), GCmp(d, "<", "*"))
+						}
+					}
+				}
+			}
+			c.MP(fn, "allocation sized by an input length is bounded first", []ssa.Instruction{in}, 1, gates...)
 		}
 	}
 	c.Floor(nil, "allocations sized by an input length", nAlloc, 3)
@@ -157,16 +171,29 @@ func runC29(c *Ctx) {
 	if fn := c.Need("util.ReadLengthed"); fn != nil {
 		er := c.CallsTo(fn, "util.EnsureRead")
 		c.MP(fn, "lengthed item: bytes read only after the length part was read", er, 1, GOk("util.ReadLength(r)"))
-		var ms []ssa.Instruction
+		// data is handed back as complete only if exactly the announced number of bytes was read
+		// (one buffer of the announced size filled by EnsureRead, or a grown buffer whose length
+		// was compared with the announced length), and then with the read's own result; any
+		// other return that carries data carries an error
+		oneShot := false
 		for _, in := range allInstrs(fn) {
 			if mk, ok := in.(*ssa.MakeSlice); ok && c.D(mk.Len) == "util.ReadLength(r)#1" {
-				ms = append(ms, in)
+				oneShot = true
 			}
 		}
-		c.Exists(fn, "lengthed item: exactly the announced number of bytes is read", ms, 1)
-		for _, r := range nonMatchingReturns(c, fn, 1, "nil") {
-			c.Report(fn, "lengthed item: data handed back together with the read's own result", c.InstrPos(r), strings.HasPrefix(c.D(RetVal(r.(*ssa.Return), 2)), "util.EnsureRead("), c.D(RetVal(r.(*ssa.Return), 2)))
+		nret := 0
+		for _, ri := range nonMatchingReturns(c, fn, 1, "nil") {
+			r := ri.(*ssa.Return)
+			nret++
+			errD := c.D(RetVal(r, 2))
+			own := strings.HasPrefix(errD, "util.EnsureRead(")
+			complete := oneShot || allOK(c.MustPass(fn, nil, []ssa.Instruction{r}, GCmp("len(*)", "==", "util.ReadLength(r)#1"), GCmp("util.ReadLength(r)#1", "==", "len(*)"), GCmp("len(*)", ">=", "util.ReadLength(r)#1")))
+			failed := strings.HasPrefix(errD, "errors.Errorf(") || strings.HasPrefix(errD, "errors.New(") ||
+				(own && allOK(c.MustPass(fn, nil, []ssa.Instruction{r}, GNonNil("util.EnsureRead(*)#1"))))
+			c.Report(fn, "lengthed item: data handed back either complete with the read's own result, or with an error", c.InstrPos(r), (complete && own) || failed,
+				fmt.Sprintf("complete=%v own result=%v error=%s", complete, own, errD))
 		}
+		c.Floor(fn, "lengthed item: returns that carry data", nret, 1)
 	}
 	for _, t := range []struct{ key, countArg, item, loop string }{
 		{"util.WriteLengthedSlice", "util.Uint64ToBytes(len(m))", "util.WriteLengthed(w, m[ι])", "(ι < len(m))"},
@@ -347,8 +374,11 @@ func lengthedAllocRules(c *Ctx, hostile bool) {
 	// from a peer can make the node allocate (and EnsureRead allocates a scratch buffer of the missing
 	// size again on every read round)
 	const maxUpfront = 64 << 20
+	// either the announced length itself is limited to maxUpfront, or every allocation sized by it
+	// is capped (min(announced…, constant <= maxUpfront)) so that the buffer grows with the bytes
+	// that actually arrived
 	var limits []string
-	ok := false
+	limited := false
 	for _, b := range fn.Blocks {
 		if len(b.Instrs) == 0 {
 			continue
@@ -367,11 +397,44 @@ func lengthedAllocRules(c *Ctx, hostile bool) {
 		}
 		limits = append(limits, c.D(bo.Y))
 		if k.Uint64() <= maxUpfront {
-			ok = true
+			limited = true
 		}
 	}
-	c.Report(fn, "lengthed item: a peer-announced length allocates at most 64 MiB before any payload byte arrives", fn.Pos(), ok,
-		"limit(s) on the announced length: "+strings.Join(limits, ", "))
+	capped := func(v ssa.Value) (bool, string) {
+		v = stripConv(v)
+		if k, ok := v.(*ssa.Const); ok {
+			return k.Value != nil && k.Uint64() <= maxUpfront, c.D(v)
+		}
+		if call, ok := v.(*ssa.Call); ok {
+			if b, isB := call.Call.Value.(*ssa.Builtin); isB && b.Name() == "min" {
+				for _, a := range call.Call.Args {
+					if k, isK := stripConv(a).(*ssa.Const); isK && k.Value != nil && k.Uint64() <= maxUpfront {
+						return true, c.D(v)
+					}
+				}
+			}
+		}
+		return false, c.D(v)
+	}
+	var bad []string
+	n := 0
+	for _, in := range allInstrs(fn) {
+		mk, ok := in.(*ssa.MakeSlice)
+		if !ok {
+			continue
+		}
+		for _, sz := range []ssa.Value{mk.Len, mk.Cap} {
+			if !c.DependsOnD(sz, "util.ReadLength(r)#1") {
+				continue
+			}
+			n++
+			if okc, d := capped(sz); !okc {
+				bad = append(bad, c.Pos(in.Pos())+": make sized "+d)
+			}
+		}
+	}
+	c.Report(fn, "lengthed item: a peer-announced length allocates at most 64 MiB before any payload byte arrives", fn.Pos(), limited || (n > 0 && len(bad) == 0),
+		"limit(s) on the announced length: "+strings.Join(limits, ", ")+"; allocations sized by it and not capped: "+strings.Join(bad, "; "))
 }
 
 // listLimitRules: the stream reader and the buffer reader of a lengthed list refuse the same
